@@ -207,6 +207,15 @@ def run_shard(spec, tier, seed):
                     val = num(gen.dyadic(r, 0.5, 5))
                 else:
                     val = num(r.choice([1, -1]) * gen.dyadic(r, 0.3, 6))
+                if r.random() < 0.2:
+                    # assigning the value the coordinate currently has (computed, if it is not the stored one) is an
+                    # assignment like any other: the coordinate becomes the stored one and reads back exactly
+                    try:
+                        cur_val = getattr(v, name)
+                        if cur_val == cur_val and (mp_mode or abs(float(cur_val)) < 1e300):
+                            val = cur_val
+                    except Exception:
+                        pass
                 partner_before = getattr(v, PARTNER[g]) if g in PARTNER else None
                 hist.append(f"{name} = {E.f(val)}")
                 try:
